@@ -353,15 +353,26 @@ def p_quoting(p):
     p[0] = p[1]
 
 
+def _numeric_modifier(cls, p):
+    """build a Fuzzy, Proximity or Boost from ``expr`` and its ``~n`` / ``^n`` token,
+    reporting an invalid number (eg. ``1.2.3``, or ``1.5`` for a proximity) as a syntax error
+    """
+    try:
+        return cls(p[1], p[2].value)
+    except (ArithmeticError, ValueError):
+        raise ParseSyntaxError(
+            "Syntax error in input : invalid number '%s' at position %d!" % (p[2].value, p[2].pos))
+
+
 def p_proximity(p):
     '''unary_expression : PHRASE APPROX'''
-    p[0] = Proximity(p[1], p[2].value)
+    p[0] = _numeric_modifier(Proximity, p)
     head_tail.post_unary(p)
 
 
 def p_boosting(p):
     '''unary_expression : unary_expression BOOST'''
-    p[0] = Boost(p[1], p[2].value)
+    p[0] = _numeric_modifier(Boost, p)
     head_tail.post_unary(p)
 
 
@@ -372,7 +383,7 @@ def p_terms(p):
 
 def p_fuzzy(p):
     '''unary_expression : TERM APPROX'''
-    p[0] = Fuzzy(p[1], p[2].value)
+    p[0] = _numeric_modifier(Fuzzy, p)
     head_tail.post_unary(p)
 
 
